@@ -30,6 +30,13 @@ def gen_case(ctx, g):
     if r.random() < 0.75:
         gcols = r.sample(range(ngroup), r.randint(1, ngroup))
         group = [('fld', 'a', c) for c in gcols]
+        if r.random() < 0.3:
+            # numeric key components (integers of different widths and signs: numeric, not textual, order)
+            A = [row + [r.choice(['2', '10', '100', '9', '-1', '-10', '0'])] for row in A]
+            numkey = ('int', ('fld', 'a', ngroup + nnum))
+            group = [numkey] if r.random() < 0.5 else group + [numkey]
+            if r.random() < 0.5:
+                group[-1] = ('add', numkey, ('len', ('fld', 'a', 0)))
     items = []
     approx = False
     for _ in range(r.randint(1, 4)):
